@@ -9,3 +9,4 @@ CONSTANTS
   Probs = {"interior", "sat0", "sat1"}
 INVARIANT CensoredOnlySurvival
 INVARIANT Finite
+INVARIANT DerivativeClosed
